@@ -11,7 +11,8 @@
    (C01_sound_full below); those are decided per run by the oracle of tools/props/c01.py on the
    real implementation (raw unit of every global through the hook vs the inferred type). *)
 From Coq Require Import String List ZArith QArith Qcanon Bool.
-From NV Require Import Dim.Model Dim.Infer Dim.Sem Dim.Proofs Dim.Run Dim.RunProofs Dim.RunTreeProofs Dim.RunProgProofs.
+From NV Require Import Dim.Model Dim.Infer Dim.Sem Dim.Proofs Dim.Run Dim.RunProofs Dim.RunTreeProofs Dim.RunProgProofs Dim.FloatExact.
+From Coq Require Import Floats.
 Import ListNotations.
 Open Scope string_scope.
 
@@ -59,6 +60,25 @@ Theorem C01_program_sound_partial :
                /\ length ds = length p.
 Proof. exact prog_sound. Qed.
 Print Assumptions C01_program_sound_partial.
+
+(* The ExpAgree hypothesis is really needed — finding C01-exponent-f64, with the witness computed
+   inside the kernel on primitive binary64 floats through a port of num-rational's
+   approximate_float (Dim/FloatExact.v):  for  `(m^2)^(0.1+0.2)`  the checker evaluates the
+   exponent in exact rationals (the literals are converted one by one: 1/10 and 1/5, sum 3/10,
+   type Length^(3/5)), the VM evaluates 0.1+0.2 in f64 first and converts the sum:
+   1125899906842624/3752999689475413.  The stored unit m^(2251799813685248/3752999689475413) and
+   m^(3/5) then fail the run-time unit check of `+` although both operands have the static type
+   Length^(3/5). *)
+Theorem C01_refuted_exponent :
+  from_f64 0.1%float = Some (1 # 10)%Q /\ from_f64 0.2%float = Some (1 # 5)%Q
+  /\ (match const_eval (EBin OAdd (EScalar (qcf 1 10)) (EScalar (qcf 1 5))) with
+      | Ok q => qc_eqb q (qcf 3 10) | Err _ => false end) = true
+  /\ from_f64 (0.1 + 0.2)%float = Some (1125899906842624 # 3752999689475413)%Q
+  /\ dtype_eqb (dpower [(FBase "Length", qc 2)] (qcf 3 10)) (dpower [(FBase "Length", qc 1)] (qcf 3 5)) = true
+  /\ rt_binop OAdd (dpower [(FBase "Length", qc 2)] (Q2Qc (1125899906842624 # 3752999689475413)))
+                   (dpower [(FBase "Length", qc 1)] (qcf 3 5)) None = RIncompatible.
+Proof. vm_compute. repeat split; reflexivity. Qed.
+Print Assumptions C01_refuted_exponent.
 
 (* full statement, not proved (rt_expr is in Dim/Run.v) *)
 Definition C01_sound_full : Prop :=
